@@ -234,7 +234,29 @@ func sharedFlush(ctx *core.Ctx, prop string, maxpend int, pattern string, mode s
 
 func sharedFlushCases(prop, tier string) []core.Case {
 	var cases []core.Case
-	for _, pat := range sharedFlushPatterns {
+	pats := append([]string{}, sharedFlushPatterns...)
+	if tier == "thorough" {
+		// every arrival order of up to 7 members and flushes that starts with a member and holds at least one flush
+		// would be 2^6 per length: a fixed pseudo-random selection of 60 of lengths 3..10
+		r := core.NewRand(7, "sharedflush-patterns")
+		seen := map[string]bool{}
+		for _, p := range pats {
+			seen[p] = true
+		}
+		for len(pats) < len(sharedFlushPatterns)+60 {
+			n := 3 + r.Intn(8)
+			b := []byte{'R'}
+			for len(b) < n {
+				b = append(b, "RF"[r.Intn(2)])
+			}
+			p := string(b)
+			if !seen[p] && strings.Contains(p, "F") {
+				seen[p] = true
+				pats = append(pats, p)
+			}
+		}
+	}
+	for _, pat := range pats {
 		for _, mp := range []int{0, 4} {
 			for _, fo := range []string{"none", "ignore", "cancel"} {
 				if tier == "quick" && mp == 4 && fo == "ignore" {
